@@ -407,7 +407,7 @@ func init() {
 			}
 		}})
 
-	register(&Rule{ID: "C03.reset", Props: []string{"C03"}, Floor: 4,
+	register(&Rule{ID: "C03.reset", Props: []string{"C03", "C05"}, Floor: 4,
 		Doc: "after the staked total decreases the dust reset is reached with the updated asset on every success path",
 		Run: func(e *Engine, r *RuleRun) {
 			if fn := r.Need("keeper.Keeper.Undelegate"); fn != nil {
